@@ -44,6 +44,9 @@ type WriterSpec struct {
 	ShortN     int   `json:"short_n,omitempty"`
 	Hook       bool  `json:"mask_hook,omitempty"` // mask keys drawn from the harness's counter source
 	Note       string `json:"note,omitempty"`
+	// interleaving with other connections (C02m): called before every op / after the last one
+	turn   func(i int)
+	finish func()
 }
 
 var sentinels = websocket.VerifErrors()
@@ -346,7 +349,14 @@ func writerRun(sp *WriterSpec) (core.Exec, []byte) {
 		}
 		return nil
 	}
-	for _, op := range sp.Ops {
+	var lastW io.WriteCloser // the writer closed last (an application may close it again, e.g. by a deferred Close)
+	if sp.finish != nil {
+		defer sp.finish()
+	}
+	for oi, op := range sp.Ops {
+		if sp.turn != nil {
+			sp.turn(oi)
+		}
 		var err error
 		switch op.K {
 		case 0:
@@ -427,11 +437,20 @@ func writerRun(sp *WriterSpec) (core.Exec, []byte) {
 			tapeChunks(ops, cs)
 			tags = append(tags, "op:ReadFrom")
 		case 5:
+			if w == nil && lastW != nil && op.Bv {
+				// Close of an already closed writer
+				err = lastW.Close()
+				ops.N(5)
+				tapeChunks(ops, nil)
+				tags = append(tags, "op:Close-again")
+				break
+			}
 			if w == nil {
 				ops.N(7).N(0)
 				c.SetWriteDeadline(time.Time{})
 				break
 			}
+			lastW = w
 			var cc [][]byte
 			if wIsFlate && sh != nil {
 				cc = sh.flush()
